@@ -4,6 +4,10 @@ import json
 props=[json.loads(l) for l in open('properties.jsonl')]
 TRUST="Trusted base: the Go type checker/SSA builder of x/tools v0.29.0; the std functions on the allow-lists behave as documented; exported operations receive values produced by the repo's constructors."
 claimed={
+'C07':dict(technique="static analysis: structural matching of the sort pipeline on SSA; order laws by re-running R-PREORDER/R-SIGN",
+ text="The multiset-preservation and no-partial-output clauses are structural facts of cmd.sort/runEcosystem (one parse per argument, one String() per sorted element, nil result with an error); the ordering clauses reduce to Compare being a total preorder with range {-1,0,1}, which is decided by the abstract evaluator for every ecosystem whose comparator is in fragment.",
+ note=TRUST+" slices.SortFunc is a correct comparison sort. Not decided: order laws for the scanner ecosystems beyond C01's coverage.",
+ design="DESIGN.md 5 (C07)"),
 'C20':dict(technique="static analysis: taint of the probe through Contains + key-field extraction from Compare's abstract decision table; re-uses R-PREORDER",
  text="The first clause is decided structurally: the probe is observed only through Compare or fields on which equal-comparing versions necessarily agree (computed from the decision table), or through Compare's own element comparator; with C02's operator table and Compare being a total preorder (R-PREORDER, re-run), comparator-only conjunctions are convex. Sufficient-style rule; named exceptions pypi '===' and gem '~>'.",
  note=TRUST+" Not decided: convexity of the field-equality shorthands (cargo/conan/gem/composer caret, tilde, pessimistic).",
